@@ -15,4 +15,4 @@ def jobs(tier):
     ]
 
 
-META = {'functions': [], 'undecided_part': '', 'trusted_base': ['contracts/va.h (x86-64 psABI 3.5.7)', 'models/libc.h']}
+META = {'functions': ['va_arg_builtin', 'va_block_arg_builtin'], 'undecided_part': '', 'trusted_base': ['contracts/va.h (x86-64 psABI 3.5.7)', 'models/libc.h']}
